@@ -285,7 +285,8 @@ def native(rp, path, s3):
     return ('bad_input', str(r))
 
 
-def conformance(prog, rp, seed, n_random):
+def conformance(prog, rp, seed, tier):
+    n_random = 150 if tier == 'quick' else 1000
     """Translator validation: MIRSE (concrete mode) and the native binary must agree."""
     src = open(REPO + '/src/canonical.rs').read()
     cases = [(p, s == 'true') for p, s in re.findall(r'canonicalize_uri_path\("([^"\\]*)", (true|false)\)', src)]
@@ -306,125 +307,50 @@ def conformance(prog, rp, seed, n_random):
     return len(cases), mism
 
 
+def replay_finding(rp, f):
+    """Native reproduction of a finding: returns (reproduced?, detail)."""
+    if 'paths' not in f.inp:
+        return False, None
+    s3 = f.inp['s3']
+    paths = f.inp['paths']
+    nat = [native(rp, p, s3) for p in paths]
+    if len(paths) == 2:
+        return (nat[0] != nat[1] and all(x[0] != 'bad_input' for x in nat)), {'native': nat}
+    ref = ref_concrete(paths[0], s3)
+    n0 = nat[0]
+    if n0[0] == 'bad_input':
+        rep = False
+    elif n0[0] == 'panic' or n0[0] != ref[0]:
+        rep = True
+    elif n0[0] == 'err':
+        rep = n0[1] != ref[1]
+    else:
+        rep = n0[1] not in ref[1]
+        if not rep and 'idempotent' in f.what:
+            rep = native(rp, n0[1], s3) != n0
+    return rep, {'native': nat, 'reference': ref}
+
+
+def describe(f):
+    return 'path %r s3=%s -> %s' % (f.inp.get('paths'), f.inp.get('s3'), json.dumps(f.detail, default=str))
+
+
+def bounds(tier):
+    return ('every ASCII path of length <= %d (all 2^n slash layouts), one 2-byte UTF-8 scalar in paths of <= 4 bytes, '
+            'segment-alphabet paths of <= %d segments exhaustively%s, two spellings (literal/%%XX/%%xx per byte, all byte '
+            'values) of decoded paths of <= %d bytes; both modes'
+            % (5 if tier == 'quick' else 7, 2 if tier == 'quick' else 3,
+               ' plus 250 seeded 3-segment paths per mode' if tier == 'quick' else ' plus 2500 seeded 4- and 5-segment paths per mode',
+               2 if tier == 'quick' else 3))
+
+
+OUTSIDE = 'longer paths; multi-byte scalars beyond one 2-byte scalar; regex engine internals (pattern `//+` modelled)'
+NEED_WITNESSES = {'ok', 'err:InvalidURIPath', 'spell-ok'}
+ASSUMPTIONS = ['input strings are valid UTF-8 (type invariant of &str)']
+
+
 def main(argv):
-    tier, seed = tier_and_seed(argv)
-    t0 = time.time()
-    prog, mir_info = engine.load_program()
-    rp = Replay()
-    ncases, mism = conformance(prog, rp, seed, 150 if tier == 'quick' else 1000)
-    if mism:
-        print('INCONCLUSIVE property=%s conformance mismatch between MIRSE and native code: %s' % (PROP, json.dumps(mism[:3])))
-        write_evidence(PROP, tier, seed, t0, {'evaluations': ncases, 'distinct_nontrivial': 0, 'states': 0,
-                                              'transitions': 0, 'explanation': 'conformance mismatch'},
-                       [], 0, {'inconclusive': mism[:10]})
-        return 2
-    sh = shapes(tier, seed)
-    results = run_shapes('specs.c09', sh, tier, seed)
-    stats = merge_stats(results)
-    inconclusive = [x for r in results for x in r.inconclusive]
-    findings = [f for r in results for f in r.findings]
-    witnesses = set()
-    for r in results:
-        witnesses |= r.witnesses
-    samples = [s for r in results for s in r.samples][:12]
-    obligations = sum(r.obligations for r in results)
-
-    # ---- replay every finding natively before reporting anything
-    confirmed, known_lines, unconfirmed = [], {}, []
-    seen = set()
-    for f in findings:
-        key = json.dumps(f.inp, sort_keys=True)
-        if key in seen:
-            continue
-        seen.add(key)
-        if 'paths' not in f.inp:
-            unconfirmed.append(f)
-            continue
-        s3 = f.inp['s3']
-        paths = f.inp['paths']
-        nat = [native(rp, p, s3) for p in paths]
-        reproduced = False
-        if len(paths) == 2:
-            reproduced = nat[0] != nat[1] and all(x[0] != 'bad_input' for x in nat)
-        else:
-            ref = ref_concrete(paths[0], s3)
-            n0 = nat[0]
-            if n0[0] == 'bad_input':
-                reproduced = False
-            elif n0[0] == 'panic':
-                reproduced = True
-            elif n0[0] != ref[0]:
-                reproduced = True
-            elif n0[0] == 'err':
-                reproduced = n0[1] != ref[1]
-            else:
-                reproduced = n0[1] not in ref[1]
-                if not reproduced and 'idempotent' in f.what:
-                    n2 = native(rp, n0[1], s3)
-                    reproduced = n2 != n0
-            f.detail = {'native': nat, 'reference': ref}
-        if not reproduced:
-            unconfirmed.append(f)
-        elif f.known:
-            known_lines.setdefault(f.known, f)
-        else:
-            confirmed.append(f)
-    rp.close()
-
-    need = {'ok', 'err:InvalidURIPath', 'spell-ok'}
-    missing = need - witnesses
-    coverage = {
-        'states': int(stats.get('paths', 0)),
-        'transitions': int(stats.get('steps', 0)),
-        'traces_validated_against_impl': ncases,
-        'samples': samples or [{'note': 'no sample'}],
-        'obligations': obligations,
-        'discharged': obligations - len(findings),
-        'shapes': len(sh),
-        'solver_queries': int(stats.get('queries', 0)),
-        'validity_queries': int(stats.get('validity_queries', 0)),
-        'solver_s': round(stats.get('solver_s', 0.0), 2),
-        'forks': int(stats.get('forks', 0)),
-        'merged_calls': int(stats.get('merged_calls', 0)),
-        'functions_encoded': stats.get('fns', []),
-        'summaries_used': stats.get('summaries', []),
-        'bounds': 'every ASCII path of length <= %d (all 2^n slash layouts), one 2-byte UTF-8 scalar in paths of <= 4 bytes, '
-                  'segment-alphabet paths of <= %d segments exhaustively%s, two spellings (literal/%%XX/%%xx per byte, all byte values) of decoded paths of <= %d bytes; both modes'
-                  % (5 if tier == 'quick' else 7, 2 if tier == 'quick' else 3,
-                     ' plus 250 seeded 3-segment paths per mode' if tier == 'quick' else ' plus 2500 seeded 4- and 5-segment paths per mode', 2 if tier == 'quick' else 3),
-        'outside': 'longer paths; multi-byte scalars beyond one 2-byte scalar; regex engine internals (pattern `//+` modelled)',
-        'witnesses': sorted(witnesses),
-        'mir': mir_info,
-        'exhaustive': False,
-        'known_findings_hit': sorted(known_lines),
-    }
-    assumptions = ['nightly MIR (-Zunpretty=mir, overflow checks on) of /repo working tree is what is executed',
-                   'std/alloc/regex summaries in mirse/lib_std.py, mirse/model_regex.py (validated by the conformance run: %d inputs, 0 mismatches)' % ncases,
-                   'input strings are valid UTF-8 (type invariant of &str)']
-    status = 0
-    for kid, f in sorted(known_lines.items()):
-        print('KNOWN-FINDING: property=%s %s (e.g. path %r s3=%s -> native %s, reference %s)' % (
-            PROP, kid, f.inp['paths'][0], f.inp['s3'], f.detail['native'][0], f.detail['reference']))
-    if confirmed:
-        f = confirmed[0]
-        path = write_replay_file(PROP, f)
-        print('VIOLATION property=%s replay=%s' % (PROP, path))
-        print('  %s: input %s detail %s' % (f.what, json.dumps(f.inp), json.dumps(f.detail, default=str)))
-        status = 1
-    elif unconfirmed or inconclusive or missing:
-        print('INCONCLUSIVE property=%s unconfirmed=%d unsupported=%d missing_witnesses=%s' % (
-            PROP, len(unconfirmed), len(inconclusive), sorted(missing)))
-        for x in inconclusive[:5]:
-            print('  ' + x.replace('\n', '\n  '))
-        for f in unconfirmed[:5]:
-            print('  unconfirmed: %s %s %s' % (f.what, json.dumps(f.inp), json.dumps(f.detail, default=str)))
-        status = 2
-    write_evidence(PROP, tier, seed, t0, coverage, assumptions, len(confirmed),
-                   {'inconclusive': inconclusive[:20], 'unconfirmed': [f.to_json() for f in unconfirmed[:20]]})
-    if status == 0:
-        print('OK property=%s tier=%s paths=%d obligations=%d shapes=%d wall=%.0fs' % (
-            PROP, tier, coverage['states'], obligations, len(sh), time.time() - t0))
-    return status
+    return run_check(sys.modules[__name__], argv)
 
 
 if __name__ == '__main__':
